@@ -140,6 +140,35 @@ def check_normalisation(idx: Index, res: Result) -> None:
             if len(adv_) == 1:
                 found_loops.append((cf, lp_, adv_[0]))
     if len(found_loops) != 1:
+        # a grid addressed by index (start + i*dt for i in range(n)): n must not be the *truncated* float quotient (stop-start)/dt -
+        # 0.3/0.1 is 2.9999999999999996, so int() / // / floor lose the last grid point exactly when the span is a whole number of steps
+        from ..util import deref as _d
+        for cf in cands:
+            for rg in [c for c in iter_calls(cf.node) if call_name(c) == "range" and c.args]:
+                for a_ in rg.args:
+                    e = a_
+                    seen_ = 0
+                    texts = []
+                    stack_ = [e]
+                    while stack_ and seen_ < 40:
+                        x = stack_.pop()
+                        seen_ += 1
+                        if isinstance(x, ast.Name):
+                            v_ = _d(cf.node, x)
+                            if v_ is not x:
+                                stack_.append(v_)
+                            continue
+                        trunc = (isinstance(x, ast.Call) and call_name(x) in ("int", "floor", "trunc") and x.args and
+                                 any(isinstance(b_, ast.BinOp) and isinstance(b_.op, ast.Div) for b_ in ast.walk(x.args[0])) and
+                                 not any(isinstance(c_, ast.Call) and call_name(c_) == "round" for c_ in ast.walk(x.args[0]))) or \
+                                (isinstance(x, ast.BinOp) and isinstance(x.op, ast.FloorDiv))
+                        if trunc:
+                            res.find("NORM", "NORM/%s/grid-length-truncated" % cf.qual, cf.loc(x), cf.qual, src(x)[:80],
+                                     "%s builds the grid from an index range whose length is %s: the float quotient is truncated, so whenever "
+                                     "(stop-start)/dt falls just below a whole number (0.3/0.1, 0.7/0.1, 0.6/0.2) the last grid point - the stop "
+                                     "time itself - is missing from the run" % (cf.qual, src(x)[:60]))
+                            return
+                        stack_.extend(ast.iter_child_nodes(x))
         raise AnalysisError("timerange: loop with a normalised advance not found")
     tr, lp, adv0 = found_loops[0]
     adv = [adv0]
@@ -325,7 +354,7 @@ def check_c05(idx: Index, tier: str, res: Result) -> None:
     from .sddsl_templates import sweep_loop, _sweep
     _sweep(idx, res)                 # the batch run sweeps the model's own (start, stop, dt)
     sim, _lp, _rng, v, st = sweep_loop(idx)
-    res.check("KEY", "result rows keyed by the range variable", len(st) == 1 and src(st[0].targets[0].slice) == v, sim.loc(), sim.qual,
+    res.check("KEY", "result rows keyed by the range variable", len(st) >= 1 and all(src(x.targets[0].slice) == v for x in st), sim.loc(), sim.qual,
               norm_stmt(st[0]) if st else "", "result rows are keyed by %s" % (src(st[0].targets[0].slice) if st else "?"), key="KEY/__simulate/rows")
     rs = idx.func(BPTK, "bptk.run_step")
     for n in walk_no_nested(rs.node):
